@@ -1002,6 +1002,7 @@ func main() {
 	if *outFuncs != "" {
 		c.emitFuncs(*repo, *outFuncs)
 		c.emitBufiox(*repo, bxPathFor(*outFuncs)) // bufiox.go: Gen/Bufiox.lean next to Funcs.lean
+		c.emitStrMap(*repo, smPathFor(*outFuncs)) // strmap.go: Gen/StrMapGen.lean next to Funcs.lean
 	}
 
 	// fingerprints
